@@ -344,7 +344,7 @@ static void hd_owner_body(void* arg) {
       mi_heap_collect(backing, true);
       CountCtx c; mi_heap_visit_blocks(backing, false, &count_visitor, &c);
       if (c.used != 0)
-        vf_trip("block-lost-after-heap-delete", "C10", "round %d: every block was freed and the owner collected, but its backing heap still counts %zu used blocks in %zu areas (a remote free into a heap being deleted was lost)", round, c.used, c.areas);
+        vf_trip("block-lost-after-heap-delete", "C10,C08", "round %d: every block was freed and the owner collected, but its backing heap still counts %zu used blocks in %zu areas (a remote free into a heap being deleted was lost)", round, c.used, c.areas);
     }
   }
   g_hd_stop.store(1, std::memory_order_release);
